@@ -302,7 +302,10 @@ def two_run_cfgs(seed):
                                       if mm != mc["months"]])
             if rng.random() < 0.5:
                 mc["years"] = [cfg2["start"][0]]
-    deploy_columns(rng, cfg2)
+    if seed % 3 == 0:
+        # variant: run 2 also edits the deployment columns of the input files (two of three histories leave
+        # every input file untouched, so that only the method parameter files differ between the runs)
+        deploy_columns(rng, cfg2)
     return cfg1, cfg2
 
 
@@ -402,6 +405,9 @@ def run_c06(ctx):
     orc = lambda c, case, static, trace: c06.oracle_trace(c, case, static, trace)  # noqa: E731
     cfgs = configs(ctx, ctx.pick(1, 8))                                   # drawn here: the seeds stay reproducible
     seeds = [ctx.rng.randrange(1 << 30) for _ in range(ctx.pick(1, 4))]
+    seeds[0] = seeds[0] - seeds[0] % 3 + 1                               # the first history edits parameters only
+    if len(seeds) > 1:
+        seeds[1] = seeds[1] - seeds[1] % 3                               # the second one also the input files
     with concurrent.futures.ThreadPoolExecutor(max_workers=2) as ex:
         # the plain configurations and the two-run histories side by side (each is mostly a child process)
         f1 = ex.submit(run_all, ctx, "C06", orc, cfgs)
